@@ -138,6 +138,18 @@ func unknownHelpers(repo string, overlay map[string][]byte) []string {
 func normalizeOverlay(repo string, overlay map[string][]byte, env []string, tags string) map[string][]byte {
 	normalizeNotes = nil
 	cur := overlay
+	// a known function that was merely renamed gets its name back first
+	// (types and fields first: function signatures are compared under the known type names)
+	if tr, fr := detectTypeRenames(repo, cur); len(tr)+len(fr) > 0 {
+		if next, ok := applyRenames(repo, cur, env, tags, nil, tr, fr); ok {
+			cur = next
+		}
+	}
+	if rn := detectRenames(repo, cur); len(rn) > 0 {
+		if next, ok := applyRenames(repo, cur, env, tags, rn, nil, nil); ok {
+			cur = next
+		}
+	}
 	for round := 0; round < 5; round++ {
 		unk := unknownHelpers(repo, cur)
 		if len(unk) == 0 {
